@@ -3,7 +3,10 @@ package geom
 import "math"
 
 func similar(a, b, e float64) bool {
-	return math.Abs(a-b) < e
+	// (a == b: the difference of two equal infinite ordinates - the corners
+	// of the empty box NewBounds returns, for instance - is NaN, and no
+	// geometry holding one was similar to itself.)
+	return a == b || math.Abs(a-b) < e
 }
 
 func pointSimilar(p1, p2 Point, e float64) bool {
